@@ -7,6 +7,8 @@ import SSJ.Proofs.Arith
 import SSJ.Proofs.FilterSafe
 import SSJ.Proofs.Suffix
 import SSJ.Proofs.Frames
+import SSJ.Proofs.BodyOK
+import SSJ.Proofs.EntryMatcher
 import SSJ.Proofs.JoinExact
 import SSJ.Proofs.JoinSetSim
 import SSJ.Proofs.JoinED
@@ -422,10 +424,12 @@ theorem work_width :
   exact RT.outputRow_length a x y
 
 /-- TOTAL: with valid table arguments `filter_tables` returns a frame -/
-theorem filterTables_total (hv : validateTablesAttrs a = .ok (l, r)) (hk : validateOutAndKeys a l r = .ok ()) :
+theorem filterTables_total (hv : validateTablesAttrs a = .ok (l, r)) (hk : validateOutAndKeys a l r = .ok ())
+    (hb : BodyOK a l r false) :
     ∃ fr, filterTables k f a t toks cpu = .ok fr := by
   rw [filterTables_eq k f a t toks cpu l r hv hk]
   obtain ⟨fr, h, _⟩ := runTables_ok a l r f.allowMissing false cpu (work k f t toks) (work_width k f a t toks l)
+    hb.lstr hb.rstr hb.noClash
   exact ⟨fr, h⟩
 
 /-- the rows of the result: payloads (chunk results, then missing-value rows) preceded by `_id` -/
@@ -1550,12 +1554,14 @@ open Classical in
 /-- `filter_candset` with valid arguments on a candidate set all of whose key pairs occur in the tables (otherwise
     the real code raises KeyError) returns a frame which keeps a candidate row iff `filter_pair` does not drop the
     pair of join values of the two rows it references -/
-theorem filterCandset_keeps (a : CandsetArgs) (fp : Cell → Cell → Bool) (cpu : Int) (c l r : Frame)
-    (hval : CandsetValid a c l r) :
+theorem filterCandset_keeps (a : CandsetArgs) (fp : Cell → Cell → Except PyErr Bool) (fpb : Cell → Cell → Bool)
+    (cpu : Int) (c l r : Frame) (hval : CandsetValid a c l r)
+    (hfp : ∀ ls ∈ l.rows, ∀ rs ∈ r.rows,
+      fp (valOf l a.lAttr ls) (valOf r a.rAttr rs) = .ok (fpb (valOf l a.lAttr ls) (valOf r a.rAttr rs))) :
     ∃ fr, filterCandset a fp cpu = .ok fr ∧ fr.columns = c.columns ∧
       ∀ cr ∈ c.rows, ∀ ls ∈ l.rows, ∀ rs ∈ r.rows,
         keyOf l a.lKey ls = cr.cell (c.colIdx a.candLKey) → keyOf r a.rKey rs = cr.cell (c.colIdx a.candRKey) →
-        (cr ∈ fr.rows ↔ fp (valOf l a.lAttr ls) (valOf r a.rAttr rs) = false) := by
+        (cr ∈ fr.rows ↔ fpb (valOf l a.lAttr ls) (valOf r a.rAttr rs) = false) := by
   obtain ⟨hc, hlt, hrt, hv1, hv2, hv3, hv4, hv5, hv6, hv7, hv8, hv9, hv10, hclen, href⟩ := hval
   -- the join values of the rows a candidate row references
   let lval : Row → Cell := fun cr =>
@@ -1578,8 +1584,14 @@ theorem filterCandset_keeps (a : CandsetArgs) (fp : Cell → Cell → Bool) (cpu
     refine ⟨choose h, (choose_spec h).1, (choose_spec h).2, ?_⟩
     show _ = dite _ _ _
     rw [dif_pos h]; rfl
-  obtain ⟨fr, hfr, hcols, -, hrows⟩ := filterCandset_rows a fp cpu c l r hc hlt hrt hv1 hv2 hv3 hv4 hv5 hv6 hv7 hv8 hv9 hv10
-    lval rval hl hr (chunksFor_flatten _ _ _ (by rw [candLabelled_length]; exact hclen))
+  have hfp' : ∀ cr ∈ c.rows, fp (lval cr) (rval cr) = .ok (fpb (lval cr) (rval cr)) := by
+    intro cr hcr
+    obtain ⟨l', hl', -, hv'⟩ := hl cr hcr
+    obtain ⟨r', hr', -, hvr'⟩ := hr cr hcr
+    rw [← hv', ← hvr']
+    exact hfp l' hl' r' hr'
+  obtain ⟨fr, hfr, hcols, -, hrows⟩ := filterCandset_rows a fp fpb cpu c l r hc hlt hrt hv1 hv2 hv3 hv4 hv5 hv6 hv7 hv8 hv9
+    hv10 lval rval hl hr hfp' (chunksFor_flatten _ _ _ (by rw [candLabelled_length]; exact hclen))
   refine ⟨fr, hfr, hcols, ?_⟩
   intro cr hcr ls hls rs hrs hkl hkr
   obtain ⟨l', hl', hk', hv'⟩ := hl cr hcr
@@ -1621,10 +1633,12 @@ theorem ovWork_width :
   exact RT.outputRow_append_length a oss _ _ _
 
 /-- TOTAL: with valid table arguments `OverlapFilter.filter_tables` returns a frame -/
-theorem overlapFilterTables_total (hv : validateTablesAttrs a = .ok (l, r)) (hk : validateOutAndKeys a l r = .ok ()) :
+theorem overlapFilterTables_total (hv : validateTablesAttrs a = .ok (l, r)) (hk : validateOutAndKeys a l r = .ok ())
+    (hb : BodyOK a l r oss) :
     ∃ fr, overlapFilterTables f a oss tok cpu = .ok fr := by
   rw [overlapFilterTables_eq f a oss tok cpu l r hv hk]
   obtain ⟨fr, h, _⟩ := runTables_ok a l r f.allowMissing oss cpu (ovWork f oss tok) (ovWork_width f a oss tok l)
+    hb.lstr hb.rstr hb.noClash
   exact ⟨fr, h⟩
 
 /-- EXACT: for two source rows with present join values, `OverlapFilter.filter_tables` (set tokenizer) lists the pair
